@@ -200,7 +200,135 @@ func c13(c tygen.Case, v reflect.Value) (kind, detail string) {
 
 // ---- C04 -------------------------------------------------------------------
 
-var C04Variants = []string{"unmarshal", "stream", "indent"}
+var C04Variants = []string{"unmarshal", "stream", "indent", "history"}
+
+// reshape copies v, replacing every slice (other than []byte) by a slice of the elements idx(len) selects (elements are shared
+// with v: the copies are only ever encoded).
+func reshape(v reflect.Value, idx func(n int) []int) reflect.Value {
+	switch v.Kind() {
+	case reflect.Slice:
+		if v.IsNil() || v.Type().Elem().Kind() == reflect.Uint8 {
+			return v
+		}
+		sel := idx(v.Len())
+		out := reflect.MakeSlice(v.Type(), len(sel), len(sel))
+		for i, k := range sel {
+			out.Index(i).Set(reshape(v.Index(k), idx))
+		}
+		return out
+	case reflect.Array:
+		out := reflect.New(v.Type()).Elem()
+		for i := 0; i < v.Len(); i++ {
+			out.Index(i).Set(reshape(v.Index(i), idx))
+		}
+		return out
+	case reflect.Ptr:
+		if v.IsNil() {
+			return v
+		}
+		out := reflect.New(v.Type().Elem())
+		out.Elem().Set(reshape(v.Elem(), idx))
+		return out
+	case reflect.Interface:
+		if v.IsNil() {
+			return v
+		}
+		out := reflect.New(v.Type()).Elem()
+		out.Set(reshape(v.Elem(), idx))
+		return out
+	case reflect.Map:
+		if v.IsNil() {
+			return v
+		}
+		out := reflect.MakeMapWithSize(v.Type(), v.Len())
+		it := v.MapRange()
+		for it.Next() {
+			out.SetMapIndex(it.Key(), reshape(it.Value(), idx))
+		}
+		return out
+	case reflect.Struct:
+		out := reflect.New(v.Type()).Elem()
+		out.Set(v)
+		for i := 0; i < v.NumField(); i++ {
+			if out.Field(i).CanSet() {
+				out.Field(i).Set(reshape(v.Field(i), idx))
+			}
+		}
+		return out
+	}
+	return v
+}
+
+func hasSlice(t reflect.Type, depth int) bool {
+	if depth > 6 {
+		return false
+	}
+	switch t.Kind() {
+	case reflect.Slice:
+		return t.Elem().Kind() != reflect.Uint8
+	case reflect.Ptr, reflect.Array, reflect.Map:
+		return hasSlice(t.Elem(), depth+1)
+	case reflect.Struct:
+		for i := 0; i < t.NumField(); i++ {
+			if hasSlice(t.Field(i).Type, depth+1) {
+				return true
+			}
+		}
+	}
+	return false
+}
+
+// c04History: the round trip of v must not depend on what the same decoders decoded before.  A long value (every slice of the
+// boundary value doubled, elements in reverse order), then a short one (every slice cut to one element), then v: each is
+// encoded and decoded into a fresh destination; only v's result is compared, and only if v round-trips when it comes first.
+func c04History(c tygen.Case, v reflect.Value) (kind, detail string) {
+	if !hasSlice(v.Type(), 0) {
+		return "", ""
+	}
+	n, err := tygen.Build(c.Desc)
+	if err != nil {
+		return "", ""
+	}
+	val := v.Interface()
+	trip := func(x reflect.Value) (reflect.Value, []byte, bool) {
+		doc, err := gojson.Marshal(x.Interface())
+		if err != nil {
+			return reflect.Value{}, nil, false
+		}
+		back := reflect.New(x.Type())
+		if gojson.Unmarshal(doc, back.Interface()) != nil {
+			return reflect.Value{}, doc, false
+		}
+		return back.Elem(), doc, true
+	}
+	if b, _, ok := trip(v); !ok || !reflect.DeepEqual(b.Interface(), val) {
+		return "", "" // not a history effect: the plain variants report it
+	}
+	base := n.Value("boundary")
+	long := reshape(base, func(k int) []int {
+		var sel []int
+		for i := 0; k > 0 && i < 2*k+1; i++ {
+			sel = append(sel, k-1-i%k)
+		}
+		return sel
+	})
+	short := reshape(base, func(k int) []int {
+		if k == 0 {
+			return nil
+		}
+		return []int{0}
+	})
+	trip(long)
+	trip(short)
+	b, doc, ok := trip(v)
+	if !ok {
+		return "unmarshal-error", fmt.Sprintf("after a longer and a shorter value of the same type, the round trip of %s fails", trunc(doc))
+	}
+	if !reflect.DeepEqual(b.Interface(), val) {
+		return "value-differs", fmt.Sprintf("after a longer and a shorter value of the same type, document %s decodes to %#v; original %#v", trunc(doc), b.Interface(), val)
+	}
+	return "", ""
+}
 
 // roundTrippable: constructions without lossy features (checked structurally; encoding/json's own round trip is the final filter)
 func roundTrippable(d tygen.Desc) bool {
@@ -234,6 +362,9 @@ func c04(c tygen.Case, v reflect.Value) (kind, detail string) {
 	sback := reflect.New(v.Type())
 	if stdjson.Unmarshal(sb, sback.Interface()) != nil || !reflect.DeepEqual(sback.Elem().Interface(), val) {
 		return "", ""
+	}
+	if c.Variant == "history" {
+		return c04History(c, v)
 	}
 	var doc []byte
 	var err error
